@@ -101,10 +101,13 @@ def check_series(s, m):
             fails.append(("cagr", "cagr() raised %r" % (v,)))
         else:
             cagr = float(v)
-            # (1 + CAGR)^years = last / first
-            back = (1 + cagr) ** (days / 365.0)
-            if not eq(back, ratio, 1e-9):
-                fails.append(("cagr", "(1 + cagr())^years = %r, last/first = %s (cagr %r over %d days)" % (back, ratio, cagr, days)))
+            # (1 + CAGR)^years = last / first, checked in the forward direction with 50-digit decimals (taking the
+            # power back in floats is ill-conditioned when 1 + CAGR is tiny)
+            from decimal import Decimal, getcontext
+            getcontext().prec = 50
+            exact = (Decimal(ratio.numerator) / Decimal(ratio.denominator)) ** (Decimal(365) / Decimal(days)) - 1
+            if abs(Decimal(repr(cagr)) - exact) > Decimal("1e-9") * max(Decimal(1), abs(exact)):
+                fails.append(("cagr", "cagr() = %r, (last/first)^(365/days) - 1 = %s (last/first = %s over %d days)" % (cagr, exact, ratio, days)))
     vol = cmpnum("volatility", "volatility", fr(m["variance"]), lambda a: a * a / 252.0)
     cmpseq("drawdown", "drawdown", m["drawdown"])
     mdd = cmpnum("max_drawdown", "max_drawdown", fr(m["maxdd"]))
@@ -167,13 +170,44 @@ def check_series(s, m):
                 if o == "ok":
                     fails.append(("reject", "a series with defect '%s' was measured by %s() instead of being rejected" % (dname, meth)))
                     break
-    # DataFrame with two columns
+    # corruptions DERIVED from the series that has just been measured (copies, slices, arithmetic keep pandas' attrs)
+    if not fails:
+        def _nan(z):
+            z = z.copy()
+            z.iloc[-1] = float("nan")
+            return z
+        derived = {"copy+nan": lambda: _nan(x), "minus": lambda: x - 10.0, "reversed": lambda: x.iloc[::-1],
+                   "concat-dup": lambda: pd.concat([x, x.iloc[:1]]), "reset_index": lambda: x.reset_index(drop=True),
+                   "times-zero": lambda: x * 0.0}
+        x.level()
+        x.cagr()
+        for dname, mk in derived.items():
+            y = mk()
+            for meth in ("level", "simple_returns", "max_drawdown"):
+                o, v = impl.classify(lambda: getattr(y, meth)())
+                if o == "ok":
+                    fails.append(("reject", "a series derived from a measured one with defect '%s' was measured by %s() instead of "
+                                  "being rejected" % (dname, meth)))
+                    break
+    # DataFrame with two columns: every metric column by column
     if not fails:
         df = pd.DataFrame({"L": x, "B": bench})
-        o, v = impl.classify(lambda: df.max_drawdown())
-        o2, v2 = impl.classify(lambda: df.cagr())
-        if o != "ok" or o2 != "ok" or not eq(float(v["L"]), fr(m["maxdd"])) or (cagr is not None and abs(float(v2["L"]) - cagr) > 1e-12):
-            fails.append(("frame", "DataFrame metrics differ from the Series metrics: %r %r" % (v, v2)))
+        for name in ("cagr", "volatility", "max_drawdown", "value_at_risk", "expected_shortfall", "downside_volatility",
+                     "upside_volatility", "martin_risk", "sharpe_ratio", "sortino_ratio", "calmar_ratio", "martin_ratio"):
+            o, v = impl.classify(lambda: getattr(df, name)())
+            if o != "ok":
+                fails.append(("frame", "DataFrame.%s() raised %r" % (name, v)))
+                continue
+            for col, ser in (("L", x), ("B", bench)):
+                o2, sv = impl.classify(lambda: getattr(ser, name)())
+                try:
+                    a, b = float(v[col]), float(sv)
+                except Exception:  # noqa: BLE001
+                    fails.append(("frame", "DataFrame.%s() does not report one value per column: %r" % (name, v)))
+                    break
+                if not ((math.isnan(a) and math.isnan(b)) or a == b or abs(a - b) <= 1e-9 * max(1.0, abs(b))):
+                    fails.append(("frame", "DataFrame.%s()[%s] = %r, the same column as a Series gives %r" % (name, col, a, b)))
+                    break
     return fails
 
 
